@@ -130,7 +130,7 @@ def check_rep(inp):
   base = list(range(n))
   it = fd.RepeatableIterator((x for x in base) if gen else base)
   for p in range(passes):
-    got = list(it)
+    got = list(itertools.islice(it, 3 * n + 5))
     if got != base:
       return f'pass {p} yields {got} instead of {base}'
 
